@@ -1,1 +1,240 @@
-import PorepyVerif.C41.Model
+/-
+C41 — property theorems (statements only use definitions of Model.lean; helper lemmas in Lemmas.lean).
+
+Property: for any box, resolution and multilinear function (in any number of parameters), the interpolation
+table reproduces the function exactly everywhere in the box, its gradient is exact for linear functions, and
+the adaptive table agrees with the standard table at every queried point.
+
+Conventions: a grid is a list of axes `(low, high, npt)` (its length `d` is the number of parameters), a point
+is a list of `d` rationals, a function with several components is a list of functions, a query is a batch of
+points.  `WF axes` = every axis has `npt ≥ 2` and `low < high` (otherwise the mesh size `h` is 0 or undefined).
+Multilinear functions are the denotations `ML.eval t` of trees `t : ML`; `eval_ofTensor` shows that every
+`Σ_{S ⊆ axes} c_S Π_{i∈S} x_i` is of this form (and `eval_ofCoefs` the same for the wire format of the driver).
+-/
+import PorepyVerif.C41.Lemmas
+
+namespace PorepyVerif.C41
+
+/-! ### the class of functions -/
+
+/-- Every coefficient tensor `c : subsets of the axes → ℚ` is represented by a tree:
+    `Σ_S c_S Π_{i∈S} x_i = (ML.ofTensor d c).eval x`. -/
+theorem multilinear_as_tree (c : List Bool → Rat) (x : List Rat) :
+    tensorEval c x = (ML.ofTensor x.length c).eval x := (eval_ofTensor x c).symm
+
+/-- … and so is the coefficient-list form the driver evaluates. -/
+theorem coefs_as_tree (cs : List Rat) (x : List Rat) :
+    evalCoefs cs x = (ML.ofCoefs x.length cs).eval x := (eval_ofCoefs x cs).symm
+
+/-- `ML.affine c₀ cs` denotes `c₀ + Σ c_k x_k`. -/
+theorem affine_as_tree (c0 : Rat) (cs x : List Rat) (h : cs.length = x.length) :
+    (ML.affine c0 cs).eval x = c0 + dotQ cs x := eval_affine c0 cs x h
+
+/-! ### the standard table -/
+
+/-- **Exactness of interpolation.** For every number of parameters, every well-formed grid, every list of
+    multilinear component functions and every batch of points of the closed box (faces, edges, corners and
+    grid nodes included), `InterpolationTable.interpolate` returns the function values. -/
+theorem interp_multilinear_exact (axes : List Axis) (ts : List ML) (xs : List (List Rat)) (hwf : WF axes)
+    (hx : ∀ x ∈ xs, x.length = axes.length ∧ inBox axes x = true) :
+    (mkTable axes (ts.map ML.eval)).interpolate xs = .ok (ts.map (fun t => xs.map t.eval)) :=
+  std_answer_multilinear axes ts (.interp xs) hwf hx trivial
+
+/-- The same statement for functions given as coefficient tensors `Σ_S c_S Π_{i∈S} x_i`. -/
+theorem interp_tensor_exact (axes : List Axis) (cs : List (List Bool → Rat)) (xs : List (List Rat))
+    (hwf : WF axes) (hx : ∀ x ∈ xs, x.length = axes.length ∧ inBox axes x = true) :
+    (mkTable axes (cs.map tensorEval)).interpolate xs = .ok (cs.map (fun c => xs.map (tensorEval c))) := by
+  have h := interp_multilinear_exact axes (cs.map (ML.ofTensor axes.length)) xs hwf hx
+  -- the table only evaluates the functions at points with `d` coordinates
+  have hv : ∀ c, ∀ p ∈ coords axes, (ML.ofTensor axes.length c).eval p = tensorEval c p := by
+    intro c p hp
+    have : p.length = axes.length := by
+      clear h hx
+      induction axes generalizing p with
+      | nil => simp [coords] at hp; simp [hp]
+      | cons a as ih =>
+        simp only [coords, List.mem_flatMap, List.mem_map] at hp
+        obtain ⟨ys, hys, i, _, rfl⟩ := hp
+        simp [ih (fun b hb => hwf b (List.mem_cons_of_mem _ hb)) ys hys]
+    rw [← this]; exact eval_ofTensor p c
+  have e1 : mkTable axes ((cs.map (ML.ofTensor axes.length)).map ML.eval) = mkTable axes (cs.map tensorEval) := by
+    simp only [mkTable, List.map_map]
+    congr 1
+    apply List.map_congr_left
+    intro c _
+    exact List.map_congr_left (fun p hp => hv c p hp)
+  rw [e1] at h
+  rw [h, List.map_map]
+  congr 1
+  apply List.map_congr_left
+  intro c _
+  apply List.map_congr_left
+  intro x hx'
+  rw [← (hx x hx').1]; exact eval_ofTensor x c
+
+/-- **Exactness of the gradient** for multilinear functions: along every axis `k` the piecewise constant
+    gradient is the partial derivative, everywhere in the closed box (upper faces included: finding F7,
+    repaired in /repo by clamping the base vertex to `npt - 2`). -/
+theorem grad_multilinear_exact (axes : List Axis) (ts : List ML) (xs : List (List Rat)) (k : Nat)
+    (hwf : WF axes) (hk : k < axes.length)
+    (hx : ∀ x ∈ xs, x.length = axes.length ∧ inBox axes x = true) :
+    (mkTable axes (ts.map ML.eval)).gradient xs k = .ok (ts.map (fun t => xs.map (t.deriv k))) :=
+  std_answer_multilinear axes ts (.grad xs k) hwf hx hk
+
+/-- **Exactness of the gradient for linear (affine) functions** `c₀ + Σ c_j x_j`: the gradient along axis `k`
+    is `c_k` at every point of the closed box. -/
+theorem grad_linear_exact (axes : List Axis) (cfs : List (Rat × List Rat)) (xs : List (List Rat)) (k : Nat)
+    (hwf : WF axes) (hk : k < axes.length) (hc : ∀ p ∈ cfs, p.2.length = axes.length)
+    (hx : ∀ x ∈ xs, x.length = axes.length ∧ inBox axes x = true) :
+    (mkTable axes (cfs.map (fun p => (ML.affine p.1 p.2).eval))).gradient xs k =
+      .ok (cfs.map (fun p => xs.map (fun _ => p.2.getD k 0))) := by
+  have h := grad_multilinear_exact axes (cfs.map (fun p => ML.affine p.1 p.2)) xs k hwf hk hx
+  rw [List.map_map] at h
+  rw [show (cfs.map (fun p => (ML.affine p.1 p.2).eval)) = cfs.map (ML.eval ∘ fun p => ML.affine p.1 p.2) from rfl,
+    h, List.map_map]
+  congr 1
+  apply List.map_congr_left
+  intro p hp
+  apply List.map_congr_left
+  intro x hx'
+  exact deriv_affine p.1 k p.2 x (by rw [hc p hp, (hx x hx').1])
+
+/-- **Partition of unity**: the `2^d` vertex weights of `interpolate` sum to one (for any right weights),
+    are non-negative when the right weights are in `[0, 1]`, and the weights of `gradient` sum to zero. -/
+theorem weights_partition_unity (rw : List Rat) :
+    sumQ ((incrs rw.length).map (vertexWeight rw)) = 1 ∧
+    ((∀ w ∈ rw, 0 ≤ w ∧ w ≤ 1) → ∀ incr ∈ incrs rw.length, 0 ≤ vertexWeight rw incr) ∧
+    ∀ k, k < rw.length → sumQ ((incrs rw.length).map (gradWeight k rw)) = 0 :=
+  ⟨weights_sum_one rw, vertexWeight_nonneg rw.length rw, gradWeights_sum_zero rw⟩
+
+/-- **Base vertex and weight in range**, one axis: for `x` in `[low, high]` the base index is in
+    `[0, npt - 2]` (so that `base + 1` is still a grid index) and the right weight is in `[0, 1]`. -/
+theorem base_in_range (a : Axis) (x : Rat) (hn : 2 ≤ a.npt) (hlh : a.low < a.high)
+    (hx : a.low ≤ x) (hx2 : x ≤ a.high) :
+    0 ≤ a.base x ∧ a.base x ≤ (a.npt : Int) - 2 ∧
+      0 ≤ a.rightWeight x (a.base x) ∧ a.rightWeight x (a.base x) ≤ 1 :=
+  axis_range a x hn hlh hx hx2
+
+/-- … for a point of the box: the assertion of `_right_left_weights` holds, all weights are in `[0, 1]`, and
+    every vertex of the hypercube used is a vertex of the grid (no index leaves the value array). -/
+theorem point_in_range (axes : List Axis) (x : List Rat) (hwf : WF axes) (hl : x.length = axes.length)
+    (hb : inBox axes x = true) :
+    weightsOk (rightWeights axes x (bases axes x)) = true ∧
+    (∀ w ∈ rightWeights axes x (bases axes x), 0 ≤ w ∧ w ≤ 1) ∧
+    ∀ incr ∈ incrs (bases axes x).length, inGrid axes (addIncr (bases axes x) incr) := by
+  obtain ⟨i1, i2, i3, i4, i5⟩ := point_facts axes x hwf hl.symm hb
+  exact ⟨i3, i4, fun incr hi => i5 _ (mem_incrs_inCube _ _ (by rw [i1, i2]) incr hi)⟩
+
+/-! ### the adaptive table -/
+
+/-- **Adaptive = standard, arbitrary functions.** For ANY component functions `fs` (not only multilinear
+    ones), any history of queries whose points lie in the closed box — interpolation anywhere in the box,
+    gradients at points off the upper faces — an adaptive table with `dx = h`, `base_point = low`, started
+    empty and filling its `SparseNdArray` on demand, gives exactly the answers of the standard table.
+    (On an upper face the two tables differentiate in different cells, so gradients agree there only for
+    functions whose difference quotients do not depend on the cell: see the next theorem.) -/
+theorem adaptive_eq_standard (axes : List Axis) (fs : List (List Rat → Rat)) (qs : List Query)
+    (hwf : WF axes) (hfs : fs ≠ [])
+    (hq : ∀ q ∈ qs, q.inBox axes ∧ q.gradOffUpper axes) :
+    (ATable.empty (hs axes) (lows axes) fs.length).run fs qs = qs.map (mkTable axes fs).answer := by
+  rw [adaptive_run_ideal hwf hfs qs (ATable.empty (hs axes) (lows axes) fs.length) [] ⟨rfl, rfl⟩ (empty_inv _ _ fs)
+    (fun q hq' x hx => ((hq q hq').1 x hx).1)]
+  apply List.map_congr_left
+  intro q hq'
+  exact (std_answer_general axes fs q hwf (hq q hq').1 (hq q hq').2).symm
+
+/-- **Adaptive = standard = exact, multilinear functions.** For multilinear components every query in the
+    closed box (gradients on the upper faces included) is answered identically by both tables, namely
+    with the exact values / partial derivatives. -/
+theorem adaptive_eq_standard_multilinear (axes : List Axis) (ts : List ML) (qs : List Query)
+    (hwf : WF axes) (hts : ts ≠ [])
+    (hq : ∀ q ∈ qs, q.inBox axes ∧ q.axisOk axes.length) :
+    (ATable.empty (hs axes) (lows axes) (ts.map ML.eval).length).run (ts.map ML.eval) qs =
+        qs.map (mkTable axes (ts.map ML.eval)).answer ∧
+    qs.map (mkTable axes (ts.map ML.eval)).answer = qs.map (exactAnswer ts) := by
+  have h2 : qs.map (mkTable axes (ts.map ML.eval)).answer = qs.map (exactAnswer ts) :=
+    List.map_congr_left (fun q hq' => std_answer_multilinear axes ts q hwf (hq q hq').1 (hq q hq').2)
+  refine ⟨?_, h2⟩
+  rw [h2, adaptive_run_ideal hwf (by simpa using hts) qs
+    (ATable.empty (hs axes) (lows axes) (ts.map ML.eval).length) [] ⟨rfl, rfl⟩ (empty_inv _ _ _)
+    (fun q hq' x hx => ((hq q hq').1 x hx).1)]
+  apply List.map_congr_left
+  intro q hq'
+  exact ideal_multilinear axes ts q hwf (fun x hx => ((hq q hq').1 x hx).1) (hq q hq').2
+
+/-- The adaptive table has no box: for multilinear components it is exact at EVERY point of the parameter
+    space (any history, any points with `d` coordinates). -/
+theorem adaptive_multilinear_exact (axes : List Axis) (ts : List ML) (qs : List Query)
+    (hwf : WF axes) (hts : ts ≠ [])
+    (hq : ∀ q ∈ qs, (∀ x ∈ q.points, x.length = axes.length) ∧ q.axisOk axes.length) :
+    (ATable.empty (hs axes) (lows axes) (ts.map ML.eval).length).run (ts.map ML.eval) qs =
+      qs.map (exactAnswer ts) := by
+  rw [adaptive_run_ideal hwf (by simpa using hts) qs
+    (ATable.empty (hs axes) (lows axes) (ts.map ML.eval).length) [] ⟨rfl, rfl⟩ (empty_inv _ _ _)
+    (fun q hq' => (hq q hq').1)]
+  apply List.map_congr_left
+  intro q hq'
+  exact ideal_multilinear axes ts q hwf (hq q hq').1 (hq q hq').2
+
+/-- **On-demand storage** (refinement through the C46 sparse array): one call of `_fill_values` keeps the
+    storage invariant (every component row and `_pt` hold the same vertices in the same order, each vertex
+    once, with the function value at its coordinate), appends exactly the new quadrature points — each a
+    vertex of a hypercube the query needs (or of a safeguarding neighbour) —, and afterwards every vertex
+    of the hypercube of every queried point is stored. -/
+theorem adaptive_fill_on_demand (fs : List (List Rat → Rat)) (T : ATable) (K : List C46.Coord) (hg : Geo T)
+    (hI : Inv fs T K) (xs : List (List Rat)) (hx : ∀ x ∈ xs, x.length = T.h.length) :
+    Inv fs (fill T fs xs) (K ++ quadPoints T xs) ∧
+    (∀ i ∈ quadPoints T xs, i ∈ needed T xs ∧ i ∉ K) ∧
+    ∀ x ∈ xs, ∀ incr ∈ incrs T.h.length,
+      addIncr (floorIdx T.basePt T.h x) incr ∈ K ++ quadPoints T xs := by
+  obtain ⟨_, _, h3, h4⟩ := fill_inv hg hI xs hx
+  exact ⟨h3, fun i hi => ⟨(List.mem_filter.mp hi).1, quadPoints_fresh hI xs i hi⟩, h4⟩
+
+/-! ### non-vacuity: concrete grids, functions and points (the queries of finding F7 among them) -/
+
+/-- 3 × 3 table on `[0,1]²` -/
+def ax2 : List Axis := [⟨0, 1, 3⟩, ⟨0, 1, 3⟩]
+/-- `2x + 3y` and `1 + 2x + 3y + 5xy` -/
+def t23 : ML := .node (.node (.const 0) (.const 3)) (.const 2)
+def t235 : ML := .node (.node (.const 1) (.const 3)) (.node (.const 2) (.const 5))
+
+theorem ax2_wf : WF ax2 := by
+  intro a ha
+  simp only [ax2, List.mem_cons, List.mem_nil_iff, or_false] at ha
+  rcases ha with rfl | rfl <;> exact ⟨by decide, by decide⟩
+
+/-- the model computes: F7 queries (upper faces, the corner) and an interior point -/
+example : (mkTable ax2 [t23.eval]).gradient [[1, 3/10]] 0 = .ok [[2]] := by decide +kernel
+example : (mkTable ax2 [t23.eval]).gradient [[3/10, 1]] 0 = .ok [[2]] := by decide +kernel
+example : (mkTable ax2 [t23.eval]).gradient [[3/10, 1], [1, 1]] 1 = .ok [[3, 3]] := by decide +kernel
+example : (mkTable ax2 [t23.eval, t235.eval]).interpolate [[1, 1], [1/4, 1/2]] = .ok [[5, 2], [11, 29/8]] := by
+  decide +kernel
+example : (mkTable ax2 [t23.eval]).interpolate [[3/2, 1/2]] = .error .valueError := by decide +kernel
+/-- a function that is NOT multilinear is not reproduced (x² at 1/4 on a grid of mesh 1/2 gives 1/8) -/
+example : (mkTable ax2 [fun x => x.headD 0 * x.headD 0]).interpolate [[1/4, 0]] = .ok [[1/8]] := by decide +kernel
+
+/-- the hypotheses of the theorems are satisfiable -/
+example : (mkTable ax2 [t23.eval, t235.eval]).interpolate [[1, 3/10], [1, 1]] =
+    .ok [[t23.eval [1, 3/10], t23.eval [1, 1]], [t235.eval [1, 3/10], t235.eval [1, 1]]] :=
+  interp_multilinear_exact ax2 [t23, t235] [[1, 3/10], [1, 1]] ax2_wf (by decide +kernel)
+
+example : (mkTable ax2 [(ML.affine 7 [2, 3]).eval]).gradient [[1, 3/10], [3/10, 1], [1, 1]] 1 = .ok [[3, 3, 3]] :=
+  grad_linear_exact ax2 [(7, [2, 3])] [[1, 3/10], [3/10, 1], [1, 1]] 1 ax2_wf (by decide) (by decide) (by decide +kernel)
+
+/-- adaptive table, history with a repeated point, a corner and an upper-face gradient -/
+example : (ATable.empty (hs ax2) (lows ax2) 1).run [t235.eval]
+      [.interp [[1/4, 1/2], [1, 1]], .grad [[1, 3/10]] 0, .interp [[1/4, 1/2]]] =
+    [.ok [[29/8, 11]], .ok [[7/2]], .ok [[29/8]]] := by decide +kernel
+
+example : Query.inBox ax2 (.grad [[1/2, 3/10]] 0) ∧ Query.gradOffUpper ax2 (.grad [[1/2, 3/10]] 0) := by
+  constructor
+  · intro x hx
+    simp only [Query.points, List.mem_singleton] at hx
+    subst hx
+    exact ⟨rfl, by decide +kernel⟩
+  · intro x hx
+    simp only [List.mem_singleton] at hx
+    subst hx
+    decide +kernel
+
+end PorepyVerif.C41
